@@ -163,6 +163,33 @@ def inc_cases() -> list[dict[str, Any]]:
     return _inc_cases
 
 
+_shaped_cases: list[dict[str, Any]] | None = None
+
+
+def shaped_cases() -> list[dict[str, Any]]:
+    """Hand-written histories (sim/synthetic-incremental.test), one dependency mechanism each."""
+    global _shaped_cases
+    if _shaped_cases is None:
+        path = os.path.join(os.path.dirname(os.path.abspath(__file__)), "..", "sim", "synthetic-incremental.test")
+        _shaped_cases = [c for c in corpus.load_file(path) if corpus.usable(c) and len(c["steps"]) >= 2]
+    return _shaped_cases
+
+
+def shaped_family_size() -> int:
+    return len(shaped_cases()) * len(corpus.TRANSFORMS) * len(histsim.STORE_CONFIGS)
+
+
+def gen_shaped(k: int) -> dict[str, Any]:
+    """Member k of the family "shaped": case x history transform x store/format configuration."""
+    cases = shaped_cases()
+    c = cases[k % len(cases)]
+    tr = corpus.TRANSFORMS[(k // len(cases)) % len(corpus.TRANSFORMS)]
+    cfg = dict(histsim.STORE_CONFIGS[(k // (len(cases) * len(corpus.TRANSFORMS))) % len(histsim.STORE_CONFIGS)])
+    files0, steps = corpus.transform_history(c, tr, kit.family_rng(PROP, "shaped-tr", k))
+    cfg["extra_flags"] = corpus.step_flags(c, 0)
+    return {"files": files0, "argv": corpus.step_argv(c, 0), "config": cfg, "steps": steps, "case": c["file"] + "::" + c["name"], "transform": tr, "member": k}
+
+
 def corpus_family_size() -> int:
     return len(inc_cases()) * len(corpus.TRANSFORMS)
 
@@ -181,7 +208,7 @@ def gen_corpus(k: int, tier: str) -> dict[str, Any]:
 
 def task(item: tuple[str, int, str]) -> dict[str, Any]:
     fam, k, tier = item
-    scn = gen_corpus(k, tier) if fam == "corpus" else gen(k, tier, stall=(fam == "stall"))
+    scn = gen_corpus(k, tier) if fam == "corpus" else gen_shaped(k) if fam == "shaped" else gen(k, tier, stall=(fam == "stall"))
     r = evaluate(scn, f"{fam}{k}")
     st = r["stats"]
     out: dict[str, Any] = {
@@ -194,9 +221,9 @@ def task(item: tuple[str, int, str]) -> dict[str, Any]:
         "nontrivial": [kit.digest(scn)] if st["partial"] else [],
         "interleavings": [],
     }
-    if fam == "corpus":
+    if fam in ("corpus", "shaped"):
         out["faults"] = {"transform_" + scn["transform"]: 1}
-    if k % 50 == 0 and fam != "corpus":
+    if k % 50 == 0 and fam not in ("corpus", "shaped"):
         out["sample"] = {"config": scn["config"], "steps": scn["steps"][:3], "modules": sorted(scn["project"]["mods"])}
     elif k % 100 == 0:
         out["sample"] = {"case": scn["case"], "transform": scn["transform"], "config": scn["config"], "steps": [[e["e"] + ":" + e.get("path", "") for e in st["edits"]] for st in scn["steps"]]}
@@ -255,6 +282,7 @@ def run(tier: str) -> int:
     items = ([("hist", k, tier) for k in kit.sample_indices(PROP, "hist", FAMILY["hist"], n)]
              + [("stall", k, tier) for k in kit.sample_indices(PROP, "stall", FAMILY["stall"], n_stall)]
              + [("corpus", k, tier) for k in kit.sample_indices(PROP, "corpus", corpus_family_size(), n_corpus)])
+    items += [("shaped", k, tier) for k in kit.sample_indices(PROP, "shaped", shaped_family_size(), 96 if tier == "quick" else shaped_family_size())]
     only = os.environ.get("VERIF_C02_FAMILY")
     if only:
         items = [it for it in items if it[0] == only]
@@ -267,7 +295,7 @@ def run(tier: str) -> int:
         if "violation" in r:
             v = r["violation"]
             key = v["family"] + ":" + vclass(v["violation"])
-            if v["family"] == "corpus" and v["violation"]["kind"] not in SOFT:
+            if v["family"] in ("corpus", "shaped") and v["violation"]["kind"] not in SOFT:
                 key += ":" + v["scenario"]["case"] + ":" + v["scenario"]["transform"]
             by_class.setdefault(key, []).append(v)
     kit.dump_raw(PROP, tier, by_class)
@@ -302,7 +330,7 @@ def match_known(cls: str, v: dict[str, Any], known: list[dict[str, Any]]) -> dic
     for e in known:
         m = e.get("match", {})
         if "case" in m:
-            if fam == "corpus" and v["scenario"].get("case") == m["case"] and v["scenario"].get("transform") in m.get("transforms", []):
+            if fam in ("corpus", "shaped") and v["scenario"].get("case") == m["case"] and v["scenario"].get("transform") in m.get("transforms", []):
                 return e
             continue
         if m.get("kind") == kind and m.get("family", fam) == fam:
